@@ -1,6 +1,7 @@
 //! C06 — bisection: `bisect <poly> <lo> <init> <hi> <tol> <itermax> <root|extrema>`
 //!
-//! Observation: `ok f<x> <passes>` | `err <Kind> <passes>` | `panic`.  The number of loop passes is
+//! Observation: `ok f<x> <passes> [~]` | `err <Kind> <passes> [~]` | `panic` (the trailing `~` marks a run one of
+//! whose stop tests was decided within rounding of its threshold, see `marginal_steps`).  The number of loop passes is
 //! observed from outside through a `PolynomialTraits` wrapper that counts `eval_univariate` calls
 //! (two per pass, one more for the residual gate); the solver is run once on the bare polynomial
 //! type (the observation) and once on the wrapper, and both runs must agree.
@@ -13,15 +14,17 @@ use spindalis::solvers::{bisection, Bounds, SolveMode, SolverError};
 use std::cell::Cell;
 use std::rc::Rc;
 
-/// counts `eval_univariate` calls of a polynomial and of everything derived from it
+/// counts `eval_univariate` calls of a polynomial and of everything derived from it, and keeps the points at which
+/// it was evaluated (in call order): the solver's iterates as seen from outside
 pub struct Counting<P> {
     pub inner: P,
     pub evals: Rc<Cell<usize>>,
+    pub points: Rc<std::cell::RefCell<Vec<f64>>>,
 }
 
 impl<P> Counting<P> {
     pub fn new(inner: P) -> Self {
-        Counting { inner, evals: Rc::new(Cell::new(0)) }
+        Counting { inner, evals: Rc::new(Cell::new(0)), points: Rc::new(std::cell::RefCell::new(Vec::new())) }
     }
 }
 
@@ -34,6 +37,14 @@ impl<P: PolynomialTraits> PolynomialTraits for Counting<P> {
         F: Into<f64> + std::clone::Clone + std::fmt::Debug,
     {
         self.evals.set(self.evals.get() + 1);
+        {
+            let mut pts = self.points.borrow_mut();
+            // (bounded: only the stop tests of the first passes can be examined; a run of 2^32 passes must not
+            // keep every iterate)
+            if pts.len() < 20_000 {
+                pts.push(point.clone().into());
+            }
+        }
         self.inner.eval_univariate(point)
     }
     fn eval_multivariate<V, S, F>(&self, vars: &V) -> Result<f64, PolynomialError>
@@ -45,22 +56,22 @@ impl<P: PolynomialTraits> PolynomialTraits for Counting<P> {
         self.inner.eval_multivariate(vars)
     }
     fn derivate_univariate(&self) -> Result<Self, PolynomialError> {
-        Ok(Counting { inner: self.inner.derivate_univariate()?, evals: self.evals.clone() })
+        Ok(Counting { inner: self.inner.derivate_univariate()?, evals: self.evals.clone(), points: self.points.clone() })
     }
     fn derivate_multivariate<S>(&self, var: S) -> Self
     where
         S: AsRef<str>,
     {
-        Counting { inner: self.inner.derivate_multivariate(var), evals: self.evals.clone() }
+        Counting { inner: self.inner.derivate_multivariate(var), evals: self.evals.clone(), points: self.points.clone() }
     }
     fn indefinite_integral_univariate(&self) -> Result<Self, PolynomialError> {
-        Ok(Counting { inner: self.inner.indefinite_integral_univariate()?, evals: self.evals.clone() })
+        Ok(Counting { inner: self.inner.indefinite_integral_univariate()?, evals: self.evals.clone(), points: self.points.clone() })
     }
     fn indefinite_integral_multivariate<S>(&self, var: S) -> Self
     where
         S: AsRef<str>,
     {
-        Counting { inner: self.inner.indefinite_integral_multivariate(var), evals: self.evals.clone() }
+        Counting { inner: self.inner.indefinite_integral_multivariate(var), evals: self.evals.clone(), points: self.points.clone() }
     }
 }
 
@@ -110,16 +121,16 @@ fn answer(line: &str) -> String {
     // 1. the bare polynomial type: this is the observation
     let direct = with_poly!(&p, q => bisection(q, Bounds { lower, init, upper }, tol, itermax, mk()));
     // 2. through the counting wrapper (same generic code, instantiated at the wrapper)
-    let (counted, evals) = match p {
+    let (counted, evals, points) = match p {
         AnyPoly::S(q) => {
             let c = Counting::new(q);
             let r = bisection(&c, Bounds { lower, init, upper }, tol, itermax, mk());
-            (r, c.evals.get())
+            (r, c.evals.get(), c.points.borrow().clone())
         }
         AnyPoly::I(q) => {
             let c = Counting::new(q);
             let r = bisection(&c, Bounds { lower, init, upper }, tol, itermax, mk());
-            (r, c.evals.get())
+            (r, c.evals.get(), c.points.borrow().clone())
         }
     };
     if !same_result(&direct, &counted) {
@@ -130,7 +141,47 @@ fn answer(line: &str) -> String {
         Ok(_) | Err(SolverError::NoConvergence) => evals.saturating_sub(1) / 2,
         _ => (evals + 1) / 2,
     };
-    format!("{} {}", show_solver(&direct), passes)
+    // the midpoints, seen from outside: every pass evaluates the target at the lower end and then at the midpoint
+    let mids: Vec<f64> = points.iter().skip(1).step_by(2).take(passes + 1).copied().collect();
+    let mark = if marginal_steps(&mids, tol) { " ~" } else { "" };
+    format!("{} {}{}", show_solver(&direct), passes, mark)
+}
+
+/// Was some stop test of this run decided within rounding of its threshold?  `seq` are the successive iterates
+/// (bisection: the midpoints; Newton: the iterates and the returned value), `tol` the relative tolerance in percent.
+///
+/// The statements fix the stopping rule only up to rounding (C07: "the last step really was below the requested
+/// relative tolerance ... plus rounding"; C06 does not constrain it at all beyond "the iteration budget is ample"):
+/// `(|dx| / x) * 100 < tol` and `|dx| * 100 / x < tol` are the same rule.  They decide differently only when the
+/// percentage lies within a few ulps of the tolerance (a step of exactly 100 % of the new iterate - the first Newton
+/// step from 0, the second midpoint of a bracket with an end at 0 - against a tolerance of exactly 100) or when one of
+/// the two forms leaves the range of binary64 (`100 * |dx|` overflows above 1.8e306 where `|dx| / x` is an ordinary
+/// number).  On such a run the model and a correct implementation may take different exits (one more pass, another
+/// iterate returned, the residual gate or the cap reached instead), so the correspondence K carries no information
+/// there: the observation is marked with a trailing `~` and the comparison (tools/props/c06.py `compare`) leaves the
+/// request to the oracles S, which judge the implementation's answer against the statement whatever the mark says.
+///
+/// A step is marginal when the two spellings of the percentage decide differently, or when the percentage is within
+/// 64 ulps (1.4e-14 relative; the spellings differ by at most 3 roundings) of the tolerance.  Steps onto exactly 0 take
+/// a branch without rounding and are never marginal.  At most 2 requests in 1000 of the generated families are marked (C07; C06: 1 in 10000)
+/// (they put tolerances of exactly 100 % next to steps of exactly 100 % on purpose).
+pub fn marginal_steps(seq: &[f64], tol: f64) -> bool {
+    for w in seq.windows(2) {
+        let (old, new) = (w[0], w[1]);
+        if old.to_bits() == new.to_bits() || new == 0.0 {
+            continue;
+        }
+        let dx = (new - old).abs();
+        let a1 = ((dx / new) * 100.0).abs();
+        let a2 = (100.0 * dx / new).abs();
+        if (a1 < tol) != (a2 < tol) {
+            return true;
+        }
+        if tol.is_finite() && tol > 0.0 && a1.is_finite() && (a1 - tol).abs() <= 64.0 * f64::EPSILON * tol {
+            return true;
+        }
+    }
+    false
 }
 
 /// Independent re-evaluation of the returned value through the public API: whenever the solver says `Ok(x)`, the
